@@ -220,9 +220,13 @@ PROPS['C14']['explanation'] = ('Closed theorems (Properties/C14.v). Rendering ha
     'group errors report the input itself and point at "()" (EmptyParentheses) or at a parenthesis (UnbalancedParenthesis) - nested scans run on balanced ranges and can only report an empty pair '
     '(depth_after invariant); every other error reports one of the DOCUMENTED expansions of the input (expand = expansions_spec) and, inside it, "{}" (EmptyBraces), a brace (UnbalancedBrace), the '
     'brace-delimited parameter from \'{\' to its matching \'}\' (Empty/Invalid Parameter, EmptyWildcard, Empty/Invalid Constraint), two disjoint brace-delimited parameters in order (DuplicateParameter), two '
-    'adjacent brace-delimited parameters (TouchingParameters), or a text not starting with \'/\' (MissingLeadingSlash); all positions and lengths lie inside the reported text. Partial, named: the finer '
-    'classification (the name really is empty / holds an invalid character / is the duplicated one; an unbalanced-parenthesis error points at an UNMATCHED one; an unbalanced-brace error at the FIRST brace '
-    'fault) is decided by the oracle err_ok_b on every error of the exhaustive (length <= 5/6 over the 12-symbol alphabet) and random streams; the model parser is tied to the real one by Parse.')
+    'adjacent brace-delimited parameters (TouchingParameters), or a text not starting with \'/\' (MissingLeadingSlash); all positions and lengths lie inside the reported text. '
+    'THE CAUSE (C14_error_states_the_actual_cause, C14_full, C14_complete; Proofs/ErrP.v cause_at / dup_ok, Proofs/UnmatchedP.v): between the reported braces the text really has the stated defect - split at the first \':\' '
+    'into name and constraint: the name is empty (EmptyParameter), is "*" alone (EmptyWildcard), holds one of : * { } ( ) / after the optional leading star and IS the reported name (InvalidParameter), the constraint is '
+    'empty (EmptyConstraint) or holds an invalid character and IS the reported one (InvalidConstraint); for DuplicateParameter both reported spans carry exactly the reported name; an UnbalancedParenthesis error '
+    'points at an UNMATCHED parenthesis: everything before it is balanced (nest, escape pairs skipped) and it is a \')\' with nothing open or a \'(\' whose group never closes (split_close = None); an UnbalancedBrace error '
+    'likewise (bnest; brace_content = None). Properties/Witnesses.v shows a concrete template for each of the thirteen error kinds, so no case of the theorem is vacuous. '
+    'Tie to the code: the model parser vs the real one on every error (Parse: exhaustive length <= 5/6 over the 12-symbol alphabet, random malformed templates), the oracle err_ok_b, and the rendered text (RenderParse/RenderField).')
 PROPS['C17']['level'] = 'proof'
 PROPS['C17']['explanation'] = ('Closed theorems (Properties/C17.v) about the model routers built from the route table REGENERATED from examples/oci/src every run (Gen/Oci.v), one per HTTP method, with the name '
     'constraint decided by the repository-name grammar name_ok: they are routers reached by a history of inserts (C17_model_routers_are_histories), every insert of the table succeeds '
